@@ -199,6 +199,27 @@ func cmdCheck(args []string) int {
 	if fr := structuralFunctionObligations(P, C); fr != nil {
 		results = append(results, fr)
 	}
+	// clauses tagged for one property only ("[C12!]") are decided by that property's check alone; the checks of other
+	// properties that share the function use them as proved facts (both checks run on the same tree)
+	for _, r := range results {
+		kept := r.Obls[:0]
+		for _, o := range r.Obls {
+			excl, mine := false, false
+			for _, p := range o.Props {
+				if strings.HasSuffix(p, "!") {
+					excl = true
+					if p == *prop+"!" {
+						mine = true
+					}
+				}
+			}
+			if excl && !mine {
+				continue
+			}
+			kept = append(kept, o)
+		}
+		r.Obls = kept
+	}
 	solveAll(exs, results, cfg)
 
 	// classify
